@@ -35,6 +35,7 @@ type Attacker struct {
 }
 
 type C05Case struct {
+	Transport
 	BufSize    int        `json:"bufsize"`
 	WitnessQoS byte       `json:"witness_qos"`
 	NMsgs      int        `json:"nmsgs"`
@@ -64,6 +65,7 @@ func runC05(c C05Case) (res c05result) {
 	if err != nil {
 		return c05result{Fail: "fixture: " + err.Error()}
 	}
+	c.Transport.apply(b)
 	defer b.Shutdown()
 	defer fix.SetYield(nil)
 	t0 := time.Now()
@@ -447,6 +449,7 @@ func genC05Jam(t *rapid.T) C05Case {
 		codec.Encode(&codec.Packet{Type: codec.SUBSCRIBE, PacketID: 1, Topics: [][]byte{[]byte("wit/#")}, QoSs: []byte{byte(rapid.IntRange(0, 1).Draw(t, "sq"))}}),
 	}, nil)
 	c.Attackers = []Attacker{a}
+	c.Transport = genTransport(t)
 	return c
 }
 
@@ -457,12 +460,14 @@ func genC05(t *rapid.T) C05Case {
 		c := genC05Jam(t)
 		c.WitnessPad = 0
 		c.Attackers[0].End, c.Attackers[0].Kind = "flood-close", "valid-subscriber-floods-requests-unread-then-cut"
+		c.Transport = genTransport(t)
 		return c
 	}
 	c := C05Case{BufSize: 16384, WitnessQoS: byte(rapid.IntRange(0, 1).Draw(t, "wq")), NMsgs: rapid.IntRange(12, 60).Draw(t, "nmsgs")}
 	for i, n := 0, rapid.IntRange(1, 3).Draw(t, "nattackers"); i < n; i++ {
 		c.Attackers = append(c.Attackers, genAttacker(t, &c, i))
 	}
+	c.Transport = genTransport(t)
 	return c
 }
 
@@ -476,6 +481,7 @@ func genC05Trap(t *rapid.T) C05Case {
 		codec.Encode(&codec.Packet{Type: codec.SUBSCRIBE, PacketID: 1, Topics: [][]byte{[]byte("wit/#")}, QoSs: []byte{byte(rapid.IntRange(0, 1).Draw(t, "sq"))}}),
 	}, nil)
 	c.Attackers = []Attacker{a}
+	c.Transport = genTransport(t)
 	return c
 }
 
@@ -582,6 +588,7 @@ func capFirstLength(stream []byte, max int) []byte {
 // connection: the offender's later bytes concern the offender alone.
 
 type C05VCase struct {
+	Transport
 	BufSize int    `json:"bufsize"`
 	Sizes   []int  `json:"sizes"` // payload sizes of the offender's valid publishes; -1 = packet exactly at the size limit
 	QoS     []byte `json:"qos"`
@@ -597,6 +604,7 @@ func runC05Victim(c C05VCase) (res c05result) {
 	if err != nil {
 		return c05result{Fail: "fixture: " + err.Error()}
 	}
+	c.Transport.apply(b)
 	defer b.Shutdown()
 	defer fix.SetYield(nil)
 	V, A := b.Dial("V"), b.Dial("A")
@@ -733,6 +741,7 @@ func genC05Victim(t *rapid.T) C05VCase {
 	c.Tail = rapid.SampledFrom([]string{"none", "garbage", "garbage", "zeros", "ff", "pings", "pings"}).Draw(t, "tail")
 	c.TailLen = rapid.SampledFrom([]int{1, 200, c.BufSize / 2, c.BufSize/2 + 1, c.BufSize, 3 * c.BufSize}).Draw(t, "taillen")
 	c.End = rapid.SampledFrom([]string{"close", "stay"}).Draw(t, "end")
+	c.Transport = genTransport(t)
 	return c
 }
 
